@@ -178,6 +178,11 @@ func Modify(node Node, f func(Node) (Node, bool)) (Node, bool) { //nolint:funlen
 		return f(newNode)
 	case *CallExpression:
 		newNode := *node
+		// The callee is a child like any other (a macro call or an unquote can be in callee position).
+		newNode.Function, cont = Modify(node.Function, f)
+		if !cont {
+			return nil, false
+		}
 		newNode.Arguments = make([]Node, len(node.Arguments))
 		for i := range node.Arguments {
 			newNode.Arguments[i], cont = Modify(node.Arguments[i], f)
